@@ -13,7 +13,7 @@ from harness import build, world, clock, spside, xmlmut
 PROPERTY = 'C17'
 LEVEL = 'exploration'
 RULE = ('idp-confidentiality: Hypothesis identities of 12-24 character random tokens (names of >= 5 characters from the shipped maps) x sign_response x sign_assertion x '
-        '{encrypt_assertion, encrypted advice attributes (PEFIM)} x self-contained namespaces x SP encryption certificates {[2],[2,3],[3,2]}; '
+        '{encrypt_assertion, encrypted advice attributes (PEFIM)} x self-contained namespaces x SP encryption certificates {[2],[2,3],[3,2]} x certificate named by the caller {none, the first or second of the SP, a third party}; '
         'sp-equal-validation: fault in {none, content edit after signing, wrong signing key, unsigned, expired Conditions / SCD / session, not-yet-valid, foreign audience, two '
         'restrictions, SCD InResponseTo other/unknown, unknown InResponseTo, foreign recipient with conv_info, XSW construction} x SP options x allow_unsolicited x encryption for the '
         'SP\'s first / second key x block cipher x key transport; each delivered plain and encrypted. Non-trivial = EncryptedData present (and, SP half, a fault inside); distinct = distinct case.')
@@ -41,7 +41,9 @@ def idp_strategy():
     return st.fixed_dictionaries({'identity': st.dictionaries(st.sampled_from(NAMES), st.lists(token(), min_size=1, max_size=3), min_size=1, max_size=4), 'name_id': token('N'),
                                   'sign_response': st.booleans(), 'sign_assertion': st.booleans(), 'mode': st.sampled_from(['assertion', 'assertion', 'advice', 'pefim', 'both']),
                                   'self_contained': st.booleans(), 'enc_keys': st.sampled_from([[2], [2, 3], [3, 2]]),
-                                  'md': st.sampled_from(['generated', 'generated', 'use-less', 'signing+use-less', 'encryption-only'])})
+                                  'md': st.sampled_from(['generated', 'generated', 'use-less', 'signing+use-less', 'encryption-only']),
+                                  # the caller may name the certificate to encrypt for (e.g. the one carried in a PEFIM request): pool index, or None = the SP's metadata certificate
+                                  'explicit': st.sampled_from([None, None, None, 3, 4, 2])})
 
 
 def pair(enc_keys, md='generated'):
@@ -75,6 +77,11 @@ def run_idp(case):
         kw['pefim'] = True
     if mode == 'pefim':
         kw['pefim'] = True
+    recipient = case['enc_keys'][0]
+    if case.get('explicit') is not None:
+        recipient = case['explicit']
+        kw['encrypt_cert_assertion'] = world.cert_body(recipient)
+        kw['encrypt_cert_advice'] = world.cert_body(recipient)
     try:
         xml = str(idp.create_authn_response(dict(identity), **kw))
     except Exception as e:
@@ -98,22 +105,25 @@ def run_idp(case):
     for _ in range(4):
         if not has_encrypted(cur):
             break
-        nxt = build.decrypt(cur, case['enc_keys'][0])
+        nxt = build.decrypt(cur, recipient)
         if nxt is None:
-            raise Violation('not-decryptable-by-sp', 'mode %s: the SP\'s first private key (pool %d) cannot decrypt the response' % (mode, case['enc_keys'][0]))
+            raise Violation('not-decryptable-by-sp', 'mode %s: the private key of the certificate the response was to be encrypted for (pool %d, %s) cannot decrypt it'
+                            % (mode, recipient, 'named by the caller' if case.get('explicit') is not None else 'the SP\'s first metadata certificate'))
         cur = nxt
     for t in [v for vs in identity.values() for v in vs]:
         if t not in cur:
             raise Violation('plaintext-incomplete', 'decrypted response lacks asserted value %r' % t)
     for other in range(10):
-        if other in case['enc_keys'][:1]:
+        if other == recipient:
             continue
         if build.decrypt(xml, other) is not None:
-            raise Violation('decryptable-by-other-key', 'pool key %d (not the key the assertion was encrypted for; SP keys %r) decrypts the response' % (other, case['enc_keys']))
+            raise Violation('decryptable-by-other-key', 'pool key %d (not the key the assertion was to be encrypted for: pool %d; SP metadata keys %r) decrypts the response' % (other, recipient, case['enc_keys']))
     # and the SP reads it
     if not case['self_contained']:
         # whether the SP can read a non-self-contained plaintext is not part of the statement (DESIGN 3/C17)
         return 'emitted|%s|not-self-contained' % mode, True
+    if recipient not in case['enc_keys']:
+        return 'emitted|%s|explicit-recipient-is-not-this-sp' % mode, True
     v = spside.deliver(sp, xml)
     if v[0] != 'accept':
         raise Violation('sp-cannot-read-encrypted', 'mode %s: SP rejected the encrypted response: %s %s' % (mode, v[1], v[2]))
